@@ -138,7 +138,7 @@ def harnesses(tier):
     # here as well, so that this check stands on its own (a leak between a PSM and the model that
     # scores it, or q-values computed before the competition, breaks C04 through them).
     from checks import c02, c03
-    want2 = ("brew[n=4,folds=2]", "brew[n=4,folds=2,cap,rng,fixed labels]", "brew[n=4+2,folds=2,2 files,cap,fixed labels]") if tier == "quick" else None
+    want2 = ("brew[n=4,folds=2]", "brew[n=4,folds=2,cap,rng,fixed labels]", "brew[n=4+2,folds=2,2 files,cap,fixed labels]", "brew_with_mokapot_Model[n=4,folds=2]") if tier == "quick" else None
     for h in c02.harnesses(tier):
         if want2 is None or h.name in want2:
             h.name = "L2:" + h.name
@@ -234,6 +234,7 @@ REAL = {"l1": real_l1, "l4": real_l4}
 def _lemma_reals():
     from checks import c02, c03
     REAL.setdefault("brew", c02.REAL["brew"])
+    REAL.setdefault("real_model", c02.REAL["real_model"])
     REAL.setdefault("confidence", c03.REAL["confidence"])
 
 
